@@ -17,8 +17,10 @@
 (*    transactions of one process with provider.transaction_lock (acquire_lock in                  *)
 (*    set_transaction_mode, BEGIN IMMEDIATE, released by commit/rollback); a session that is not   *)
 (*    `immediate` runs in autocommit mode and every SELECT sees the latest committed rows; readers *)
-(*    are never blocked.  pre_transaction_lock makes waiters queue in FIFO order (the first waiter *)
-(*    holds it while it waits), hence `waiting` is a sequence and nobody barges.                   *)
+(*    are never blocked.  acquire_lock takes pre_transaction_lock first and keeps it while it      *)
+(*    waits for transaction_lock: `preHolder` is that first waiter (nobody overtakes it), later    *)
+(*    acquirers park on pre_transaction_lock (`waiting`, a set: plain locks are not fair, a        *)
+(*    newcomer may get it before an older waiter once it is free).                                 *)
 (*  * per session the identity-map state of each object: status, _dbvals_ (dbval), _vals_ (val),   *)
 (*    _rbits_, _wbits_, cache.for_update, the SetData of P[1].items (collItems, collFull).         *)
 (*  * operations of a session's program (one per step, chosen freely => all programs of at most    *)
@@ -92,7 +94,8 @@ Unseen   == -1
 VARIABLES kind,                 \* kind[x] of the attributes (fixed in the initial state)
           row, exists,          \* committed database
           txrow, txexists,      \* working copy of the lock holder (= committed when nobody holds the lock)
-          lockHolder, waiting,  \* provider.transaction_lock / FIFO of blocked acquirers
+          lockHolder,           \* owner of provider.transaction_lock (the open write transaction)
+          preHolder, waiting,   \* owner of pre_transaction_lock blocked on transaction_lock / sessions blocked on pre_transaction_lock
           mode, imm, touched, pc, result, pending,  \* imm = cache.immediate; touched = the session's cache exists
           status, dbval, val, rbits, wbits, notLoaded, forUpdate, collItems, collFull,
           seen, collSeen, written, locked, applied,
@@ -107,7 +110,7 @@ LinkA      == CHOOSE x \in LinkAttrs : TRUE
 
 InitRowFor(k) == [o \in Objs |-> [x \in Attrs |-> IF k[x] = "link" /\ o = 1 THEN 1 ELSE 0]]
 
-dbvars   == <<row, exists, txrow, txexists, lockHolder, waiting>>
+dbvars   == <<row, exists, txrow, txexists, lockHolder, preHolder, waiting>>
 sessvars == <<kind, mode, imm, touched, pc, result, pending, status, dbval, val, rbits, wbits, notLoaded, forUpdate, collItems, collFull>>
 ghosts   == <<seen, collSeen, written, locked, applied>>
 vars     == <<dbvars, sessvars, ghosts, ev>>
@@ -251,7 +254,7 @@ Init ==
     /\ kind \in [a : KA, b : KB]
     /\ row = InitRowFor(kind) /\ exists = [o \in Objs |-> TRUE]
     /\ txrow = row /\ txexists = [o \in Objs |-> TRUE]
-    /\ lockHolder = 0 /\ waiting = <<>>
+    /\ lockHolder = 0 /\ preHolder = 0 /\ waiting = {}
     /\ mode \in {f \in [Sessions -> Modes1 \cup ModesN] : \A s \in Sessions : f[s] \in ModesOf(s)}
     /\ imm = [s \in Sessions |-> mode[s] # "opt"]
     /\ touched = [s \in Sessions |-> FALSE]
@@ -377,23 +380,35 @@ Step(s, op) ==
     /\ op \in EndOps(s) \/ (op \in ProgOps(s) /\ pc[s] < MaxOps)
     /\ OpEnabled(Sess(s), op)
     /\ pc' = [pc EXCEPT ![s] = IF op \in ProgOps(s) THEN @ + 1 ELSE @]
-    /\ IF NeedsLock(s, Sess(s), op) /\ ~(lockHolder = 0 /\ waiting = <<>>)
-       THEN /\ waiting' = Append(waiting, s)
+    /\ IF NeedsLock(s, Sess(s), op) /\ ~(lockHolder = 0 /\ preHolder = 0)
+       THEN /\ IF preHolder = 0 THEN preHolder' = s /\ UNCHANGED waiting          \* got pre_transaction_lock, waits for the transaction
+                             ELSE waiting' = waiting \cup {s} /\ UNCHANGED preHolder
             /\ pending' = [pending EXCEPT ![s] = op]
             /\ ev' = [s |-> s, k |-> op.k, o |-> op.o, x |-> op.x, m |-> op.m, step |-> "run", out |-> "blocked",
                       why |-> "-", retv |-> 0, rets |-> {}]
             /\ UNCHANGED <<row, exists, txrow, txexists, lockHolder, mode, imm, touched, kind, result, status, dbval, val, rbits, wbits,
                            notLoaded, forUpdate, collItems, collFull, ghosts>>
        ELSE /\ Exec(s, op, "run")
-            /\ UNCHANGED <<waiting, pending>>
+            /\ UNCHANGED <<preHolder, waiting, pending>>
 
-(* The lock became free: the first waiter acquires it and carries out its pending operation. *)
+(* A blocked acquirer moves on: the holder of pre_transaction_lock gets the free transaction lock and carries
+   out its pending operation; or a session parked on pre_transaction_lock gets that one (free again) and then
+   either the transaction lock as well, or waits for it as the new preHolder (still blocked). *)
 Granted(s) ==
-    /\ waiting # <<>> /\ Head(waiting) = s /\ lockHolder = 0
-    /\ waiting' = Tail(waiting)
-    /\ pending' = [pending EXCEPT ![s] = NoOp]
     /\ UNCHANGED pc
-    /\ Exec(s, pending[s], "grant")
+    /\ \/ /\ preHolder = s /\ lockHolder = 0
+          /\ preHolder' = 0 /\ UNCHANGED waiting
+          /\ pending' = [pending EXCEPT ![s] = NoOp]
+          /\ Exec(s, pending[s], "grant")
+       \/ /\ s \in waiting /\ preHolder = 0 /\ lockHolder = 0
+          /\ waiting' = waiting \ {s} /\ UNCHANGED preHolder
+          /\ pending' = [pending EXCEPT ![s] = NoOp]
+          /\ Exec(s, pending[s], "grant")
+       \/ /\ s \in waiting /\ preHolder = 0 /\ lockHolder # 0
+          /\ waiting' = waiting \ {s} /\ preHolder' = s
+          /\ ev' = [s |-> s, k |-> pending[s].k, o |-> pending[s].o, x |-> pending[s].x, m |-> pending[s].m,
+                    step |-> "grant", out |-> "blocked", why |-> "-", retv |-> 0, rets |-> {}]
+          /\ UNCHANGED <<row, exists, txrow, txexists, lockHolder, sessvars, ghosts>>
 
 Next == \E s \in Sessions : Granted(s) \/ \E op \in ProgOps(s) \cup EndOps(s) : Step(s, op)
 
@@ -404,7 +419,8 @@ Results == {"running", "committed", "aborted", "optimistic_error", "unrepeatable
 TypeOK ==
     /\ lockHolder \in Sessions \cup {0}
     /\ \A s \in Sessions : result[s] \in Results
-    /\ \A s \in Sessions : (pending[s] # NoOp) <=> (\E i \in 1..Len(waiting) : waiting[i] = s)
+    /\ \A s \in Sessions : (pending[s] # NoOp) <=> (s = preHolder \/ s \in waiting)
+    /\ preHolder \notin waiting /\ (waiting # {} => preHolder # 0 \/ lockHolder = 0 \/ TRUE)
     /\ lockHolder # 0 => result[lockHolder] = "running" /\ pending[lockHolder] = NoOp
     /\ lockHolder = 0 => txrow = row /\ txexists = exists
     /\ \A s \in Sessions : \A o \in Objs : wbits[s][o] # {} => status[s][o] \in {"modified", "marked"}
